@@ -2082,3 +2082,209 @@ Proof.
     rewrite <- Hd. auto.
   - exists xs. splits; auto.
 Qed.
+
+(* ------------------------------------------------------------------ records: columns by name *)
+
+Lemma name_eqb_spec (a b : name) : name_eqb a b = true <-> a = b.
+Proof.
+  unfold name_eqb. revert b. induction a as [|x a IH]; intros [|y b]; cbn [list_eqb]; split; intro H;
+    try reflexivity; try discriminate.
+  - apply andb_true_iff in H. destruct H as [H1 H2]. apply Z.eqb_eq in H1. apply IH in H2. subst. reflexivity.
+  - inversion H; subst. apply andb_true_iff. split; [apply Z.eqb_refl|apply IH; reflexivity].
+Qed.
+
+Lemma name_eqb_false (a b : name) : name_eqb a b = false <-> a <> b.
+Proof.
+  split.
+  - intros H E. apply name_eqb_spec in E. congruence.
+  - intros H. destruct (name_eqb a b) eqn:E; [apply name_eqb_spec in E; contradiction|reflexivity].
+Qed.
+
+Section CiRecordP.
+Variable V : Type.
+
+Notation keys := (map (@fst name (name * V))).
+
+Lemma cid_set_fresh (d : cidict V) fk k v :
+  ~ In fk (keys d) -> cid_set d fk k v = d ++ [(fk, (k, v))].
+Proof.
+  induction d as [|[fk' kv] r IH]; intros Hn; cbn [cid_set app]; [reflexivity|].
+  cbn [map fst In] in Hn.
+  destruct (name_eqb fk' fk) eqn:E.
+  - apply name_eqb_spec in E. exfalso. apply Hn. left. exact E.
+  - rewrite IH; [reflexivity|]. intro H. apply Hn. right. exact H.
+Qed.
+
+Lemma cid_set_keys_in (d : cidict V) fk k v x :
+  In x (keys (cid_set d fk k v)) -> x = fk \/ In x (keys d).
+Proof.
+  induction d as [|[fk' kv] r IH]; cbn [cid_set map fst In].
+  - intros [H|[]]. left. symmetry. exact H.
+  - destruct (name_eqb fk' fk) eqn:E; cbn [map fst In].
+    + intros [H|H]; right; [left|right]; assumption.
+    + intros [H|H]; [right; left; exact H|]. destruct (IH H) as [H1|H1]; [left|right; right]; assumption.
+Qed.
+
+Lemma cid_set_keys_nodup (d : cidict V) fk k v :
+  NoDup (keys d) -> NoDup (keys (cid_set d fk k v)).
+Proof.
+  induction d as [|[fk' kv] r IH]; cbn [cid_set map fst]; intros Hnd.
+  - constructor; [intros []|constructor].
+  - inversion Hnd as [|? ? Hni Hr]; subst.
+    destruct (name_eqb fk' fk) eqn:E; cbn [map fst].
+    + constructor; assumption.
+    + constructor; [|apply IH; exact Hr].
+      intro H. apply cid_set_keys_in in H. destruct H as [H|H]; [|contradiction].
+      apply name_eqb_false in E. congruence.
+Qed.
+
+Lemma cid_build_keys (l : list (name * (name * V))) (d : cidict V) :
+  NoDup (keys d) ->
+  NoDup (keys (cid_build d l)) /\ incl (keys (cid_build d l)) (keys d ++ map fst l).
+Proof.
+  revert d. induction l as [|[fk [k v]] r IH]; intros d Hnd; cbn [cid_build map fst].
+  - split; [exact Hnd|]. rewrite app_nil_r. apply incl_refl.
+  - destruct (IH (cid_set d fk k v) (cid_set_keys_nodup d fk k v Hnd)) as [H1 H2]. split; [exact H1|].
+    intros x Hx. apply H2 in Hx. apply in_app_or in Hx. apply in_or_app. destruct Hx as [Hx|Hx].
+    + apply cid_set_keys_in in Hx. destruct Hx as [Hx|Hx]; [right; left; symmetry; exact Hx|left; exact Hx].
+    + right. right. exact Hx.
+Qed.
+
+Lemma cid_build_fresh (l : list (name * (name * V))) (d : cidict V) :
+  NoDup (map fst l) -> (forall x, In x (map fst l) -> ~ In x (keys d)) ->
+  cid_build d l = d ++ l.
+Proof.
+  revert d. induction l as [|[fk [k v]] r IH]; intros d Hnd Hdis; cbn [cid_build].
+  - rewrite app_nil_r. reflexivity.
+  - cbn [map fst] in Hnd, Hdis. inversion Hnd as [|? ? Hni Hr]; subst.
+    rewrite cid_set_fresh by (apply Hdis; left; reflexivity).
+    rewrite IH; [rewrite <- app_assoc; reflexivity|exact Hr|].
+    intros x Hx Hin. rewrite map_app in Hin. apply in_app_or in Hin. destruct Hin as [Hin|Hin].
+    + exact (Hdis x (or_intror Hx) Hin).
+    + cbn [map fst In] in Hin. destruct Hin as [Hin|[]]. subst x. contradiction.
+Qed.
+
+Variable fold : name -> name.
+
+Lemma with_fold_keys (l : list (name * V)) : map fst (with_fold fold l) = map fold (map fst l).
+Proof. unfold with_fold. rewrite !map_map. reflexivity. Qed.
+
+Lemma with_fold_items (l : list (name * V)) : cid_items (with_fold fold l) = l.
+Proof. unfold cid_items, with_fold. rewrite map_map. cbn [snd]. apply map_id. Qed.
+
+Lemma with_fold_get (l : list (name * V)) k v k' :
+  NoDup (map fold (map fst l)) -> In (k, v) l -> fold k' = fold k ->
+  cid_get (with_fold fold l) (fold k') = Some v.
+Proof.
+  induction l as [|[k0 v0] r IH]; intros Hnd Hin Hf; [destruct Hin|].
+  cbn [map fst] in Hnd. inversion Hnd as [|? ? Hni Hr]; subst.
+  unfold with_fold. cbn [map fst cid_get]. fold (with_fold fold r).
+  destruct (name_eqb (fold k0) (fold k')) eqn:E.
+  - apply name_eqb_spec in E. destruct Hin as [Hin|Hin]; [inversion Hin; reflexivity|].
+    exfalso. apply Hni. rewrite E, Hf. apply in_map. apply (in_map fst) in Hin. exact Hin.
+  - apply name_eqb_false in E. destruct Hin as [Hin|Hin]; [inversion Hin; subst; congruence|].
+    apply IH; assumption.
+Qed.
+
+(* every column intact: when the column names are pairwise different under the folding, the record
+   shows exactly the columns of the row, in order, and looking a column up under any spelling that
+   folds like its name gives that column's value *)
+Theorem record_columns_intact (l : list (name * V)) :
+  NoDup (map fold (map fst l)) ->
+  cid_items (record_of fold l) = l /\
+  forall k v k', In (k, v) l -> fold k' = fold k -> record_get fold (record_of fold l) k' = Some v.
+Proof.
+  intros Hnd. unfold record_of, record_get.
+  rewrite cid_build_fresh; [|rewrite with_fold_keys; exact Hnd|intros x _ []].
+  cbn [app]. split; [apply with_fold_items|]. intros k v k' Hin Hf. apply (with_fold_get l k v k'); assumption.
+Qed.
+
+(* ... and only then: two names that fold alike are ONE key, the record has fewer columns than the row *)
+Theorem record_twins_lose_a_column (l : list (name * V)) :
+  ~ NoDup (map fold (map fst l)) -> (length (cid_items (record_of fold l)) < length l)%nat.
+Proof.
+  intros Hdup. unfold record_of, cid_items. rewrite map_length.
+  destruct (cid_build_keys (with_fold fold l) [] (NoDup_nil _)) as [Hnd Hincl].
+  cbn [map app] in Hincl. rewrite with_fold_keys in Hincl.
+  pose proof (NoDup_incl_length Hnd Hincl) as Hle. rewrite !map_length in Hle.
+  destruct (Nat.lt_ge_cases (length (cid_build [] (with_fold fold l))) (length l)) as [Hlt|Hge]; [exact Hlt|].
+  exfalso. apply Hdup. apply (NoDup_incl_NoDup Hnd); [rewrite !map_length; exact Hge|exact Hincl].
+Qed.
+
+End CiRecordP.
+
+(* ------------------------------------------------------------------ macros *)
+Section MacrosP.
+Variable R : Type.
+
+Lemma shift_sites_sids k (l : list (nat * dsref R)) :
+  map fst (shift_sites R k l) = map (Nat.add k) (map fst l).
+Proof. unfold shift_sites. rewrite !map_map. reflexivity. Qed.
+
+Lemma shift_sids k :
+  (forall t : tmpl R, tmpl_sids R (shift_tmpl R k t) = map (Nat.add k) (tmpl_sids R t)) /\
+  (forall ts : tmpls R, tmpls_sids R (shift_tmpls R k ts) = map (Nat.add k) (tmpls_sids R ts)).
+Proof.
+  apply (tmpl_mutind R).
+  - intros tid lp sites pass nested IHn friends IHf.
+    change (tmpl_sids R (shift_tmpl R k (Tmpl tid lp sites pass nested friends)))
+      with (map fst (shift_sites R k sites) ++ tmpls_sids R (shift_tmpls R k nested) ++ tmpls_sids R (shift_tmpls R k friends)).
+    change (tmpl_sids R (Tmpl tid lp sites pass nested friends))
+      with (map fst sites ++ tmpls_sids R nested ++ tmpls_sids R friends).
+    rewrite shift_sites_sids, IHn, IHf, !map_app. reflexivity.
+  - reflexivity.
+  - intros t IHt r IHr.
+    change (tmpls_sids R (shift_tmpls R k (TCons t r)))
+      with (tmpl_sids R (shift_tmpl R k t) ++ tmpls_sids R (shift_tmpls R k r)).
+    change (tmpls_sids R (TCons t r)) with (tmpl_sids R t ++ tmpls_sids R r).
+    rewrite IHt, IHr, map_app. reflexivity.
+Qed.
+
+Lemma tapp_sids (a b : tmpls R) : tmpls_sids R (tapp R a b) = tmpls_sids R a ++ tmpls_sids R b.
+Proof.
+  revert a. fix IH 1. intros [|t r].
+  - reflexivity.
+  - change (tmpls_sids R (tapp R (TCons t r) b)) with (tmpl_sids R t ++ tmpls_sids R (tapp R r b)).
+    change (tmpls_sids R (TCons t r)) with (tmpl_sids R t ++ tmpls_sids R r).
+    rewrite IH, app_assoc. reflexivity.
+Qed.
+
+(* the call sites of a template that includes a macro: the macro's, renumbered for this inclusion, and its own *)
+Lemma include_macro_sids k (m : macro R) (t : tmpl R) s :
+  In s (tmpl_sids R (include_macro R k m t)) <->
+  In s (map (Nat.add k) (macro_sids R m)) \/ In s (tmpl_sids R t).
+Proof.
+  destruct t as [tid lp sites pass nested friends]. unfold macro_sids.
+  change (tmpl_sids R (include_macro R k m (Tmpl tid lp sites pass nested friends)))
+    with (map fst (shift_sites R k (m_sites R m) ++ sites) ++
+          tmpls_sids R (tapp R (shift_tmpls R k (m_nested R m)) nested) ++
+          tmpls_sids R (tapp R (shift_tmpls R k (m_friends R m)) friends)).
+  change (tmpl_sids R (Tmpl tid lp sites pass nested friends))
+    with (map fst sites ++ tmpls_sids R nested ++ tmpls_sids R friends).
+  rewrite !map_app, !tapp_sids, shift_sites_sids.
+  rewrite (proj2 (shift_sids k) (m_nested R m)), (proj2 (shift_sids k) (m_friends R m)).
+  rewrite ?map_app. repeat rewrite in_app_iff. tauto.
+Qed.
+
+(* every inclusion has call sites of its own: with local numbers below B, the inclusions numbered
+   from i*B and from j*B (i <> j) have no call site in common *)
+Theorem inclusions_own_call_sites (m : macro R) (B i j : nat) :
+  (forall s, In s (macro_sids R m) -> (s < B)%nat) -> i <> j ->
+  forall s, In s (map (Nat.add (i * B)) (macro_sids R m)) ->
+            ~ In s (map (Nat.add (j * B)) (macro_sids R m)).
+Proof.
+  intros Hb Hij s Hi Hj. apply in_map_iff in Hi. destruct Hi as [a [Ha Hina]].
+  apply in_map_iff in Hj. destruct Hj as [b [Hb' Hinb]].
+  apply Hb in Hina. apply Hb in Hinb. subst s.
+  assert (i = j); [|contradiction]. nia.
+Qed.
+
+(* ... so the unnamed Dataset calls of two inclusions never share a state key, named ones do *)
+Theorem inclusions_keys (d : dsref R) (a b : nat) :
+  a <> b -> (key_of R a d = key_of R b d <-> d_name R d <> None).
+Proof.
+  intros Hab. unfold key_of. destruct (d_name R d) as [nm|]; split; intro H; try reflexivity; try discriminate.
+  - inversion H. contradiction.
+  - exfalso. apply H. reflexivity.
+Qed.
+End MacrosP.
